@@ -110,7 +110,7 @@ for t, T, n, uw in TYPES[:2]:
           bound="every operand pair, modulo the contract of the crate-private integer division kernel softposit::div (stubbed: q*d+r=n, 0<=r<d; quotient shared with the reference)"),
         H("c01_%s_div_bounded" % t, "c01::%s::div_bounded" % t, unwind=uw, timeout=900, tier="thorough", funcs=["%s::div" % T, "softposit::div"], space_bits=n + 7,
           bound="real kernel, no stub: every dividend, divisors with <= 6 fraction bits"),
-        H("c01_%s_spell" % t, "c01::%s::spell" % t, unwind=uw, timeout=tmo, funcs=["%s: +,-,* operator traits, const methods, op-assign" % T], space_bits=2 * n, bound="every operand pair"),
+        H("c01_%s_spell" % t, "c01::%s::spell" % t, unwind=uw, timeout=tmo * 2, tier="quick" if t == "p8" else "thorough", funcs=["%s: +,-,* operator traits, const methods, op-assign" % T], space_bits=2 * n, bound="every operand pair"),
         )
 reg("C01",
     H("c01_p32_mul", "c01::p32::mul", unwind=33, timeout=1500, funcs=["P32E2::mul", "Mul for P32E2"], space_bits=64, bound="every operand pair"),
@@ -122,16 +122,16 @@ reg("C01",
     H("c01_p32_spell_sub", "c01::p32::spell_op", gen="1", unwind=33, timeout=1800, tier="thorough", funcs=["P32E2: - operator trait, const method, -="], space_bits=64, bound="every operand pair"),
     H("c01_p32_spell_mul", "c01::p32::spell_op", gen="2", unwind=33, timeout=1800, tier="thorough", funcs=["P32E2: * operator trait, const method, *="], space_bits=64, bound="every operand pair"),
     H("c01_p32_addsub_special", "c01::p32::addsub_special", unwind=33, funcs=["P32E2::add", "P32E2::sub"], space_bits=34, bound="every pair with a zero or NaR operand"),
-    H("c01_p32_slices_cover", "c01::p32::slices_cover", unwind=33, funcs=[], space_bits=64, bound="the 9 slice predicates below cover every pair of real operands"),
+    H("c01_p32_slices_cover", "c01::p32::slices_cover", unwind=33, funcs=[], space_bits=64, bound="the slice predicates of the add/sub partition (8 same-sign, 6 opposite-sign scale-distance classes) cover every pair of real operands"),
     )
 # (same sign?, dlo, dhi, measured seconds)
-P32_ADD_SLICES = [(True, 0, 3, 150), (True, 4, 15, 300), (True, 16, 40, 320), (True, 41, 1000, 50),
-                  (False, 0, 0, 180), (False, 1, 1, 215), (False, 2, 7, 300), (False, 8, 40, 160), (False, 41, 1000, 80)]
+P32_ADD_SLICES = [(True, 0, 0, 150), (True, 1, 1, 150), (True, 2, 3, 200), (True, 4, 7, 150), (True, 8, 15, 150), (True, 16, 25, 160), (True, 26, 40, 160), (True, 41, 1000, 50),
+                  (False, 0, 0, 250), (False, 1, 1, 300), (False, 2, 3, 150), (False, 4, 7, 150), (False, 8, 40, 160), (False, 41, 1000, 80)]
 for op in ("add", "sub"):
     for same, lo, hi, sec in P32_ADD_SLICES:
         nm = "c01_p32_%s_%s_d%d_%d" % (op, "same" if same else "diff", lo, hi)
         reg("C01", H(nm, "c01::p32::%s_slice" % op, gen="%s, %d, %d" % ("true" if same else "false", lo, hi), unwind=33, timeout=max(8 * sec, 600),
-                     tier="quick" if sec <= 220 else "thorough", funcs=["P32E2::%s" % op], space_bits=64, slice_of="P32E2 %s over all real pairs" % op,
+                     tier="quick" if sec <= 260 else "thorough", funcs=["P32E2::%s" % op], space_bits=64, slice_of="P32E2 %s over all real pairs" % op,
                      bound="real operands, effective signs %s, |scale(a)-scale(b)| in [%d,%d]" % ("equal" if same else "opposite", lo, hi)))
 
 # ------------------------------------------------------------------ C04 (one inductive step from an arbitrary state)
@@ -139,17 +139,17 @@ reg("C04",
     H("c04_q8_step", "c04::q8::step", unwind=34, covers=2, funcs=["Q8E0 += (P8E0,P8E0)", "Q8E0 -= (P8E0,P8E0)", "Q8E0 += P8E0", "Q8E0 -= P8E0"], space_bits=50, bound="every 32-bit quire state (NaR state included), every operand pair, four step kinds; result pattern != NaR (the property's range precondition)"),
     H("c04_q8_predicates", "c04::q8::predicates", unwind=9, funcs=["Q8E0::is_zero", "Q8E0::is_nar"], space_bits=32, bound="every state"),
     H("c04_q8_to_posit", "c04::q8::to_posit", unwind=34, funcs=["Q8E0::to_posit"], space_bits=32, bound="every state"),
-    H("c04_q8_spellings", "c04::q8::spellings", unwind=34, funcs=["Q8E0 +=/-= tuple, nested-tuple and array operands"], space_bits=65, bound="every state and operands"),
+    H("c04_q8_spellings", "c04::q8::spellings", unwind=34, timeout=900, funcs=["Q8E0 +=/-= tuple, nested-tuple and array operands"], space_bits=65, bound="every state and operands"),
     H("c04_q16_step", "c04::q16::step", unwind=66, covers=2, timeout=600, funcs=["Q16E1 += (P16E1,P16E1)", "Q16E1 -= (P16E1,P16E1)", "Q16E1 += P16E1", "Q16E1 -= P16E1"], space_bits=162, bound="every 128-bit quire state, every operand pair, four step kinds; result pattern != NaR"),
     H("c04_q16_predicates", "c04::q16::predicates", unwind=9, funcs=["Q16E1::is_zero", "Q16E1::is_nar"], space_bits=128, bound="every state"),
     H("c04_q16_to_posit", "c04::q16::to_posit", unwind=130, timeout=300, funcs=["Q16E1::to_posit"], space_bits=128, bound="every state"),
-    H("c04_q16_spellings", "c04::q16::spellings", unwind=66, timeout=900, funcs=["Q16E1 +=/-= tuple, nested-tuple and array operands"], space_bits=193, bound="every state and operands"),
+    H("c04_q16_spellings", "c04::q16::spellings", unwind=66, timeout=2400, tier="thorough", funcs=["Q16E1 +=/-= tuple, nested-tuple and array operands"], space_bits=193, bound="every state and operands"),
     H("c04_q32_predicates", "c04::q32::predicates", unwind=9, covers=2, funcs=["Q32E2::is_zero", "Q32E2::is_nar"], space_bits=512, bound="every state"),
     H("c04_q32_to_posit", "c04::q32::to_posit", unwind=66, timeout=900, mem_gb=10, funcs=["Q32E2::to_posit"], space_bits=512, bound="every 512-bit state"),
     H("c04_q32_spellings", "c04::q32::spellings", unwind=34, timeout=1800, mem_gb=12, tier="thorough", funcs=["Q32E2 +=/-= tuple, nested-tuple and array operands"], space_bits=641, bound="every state and operands"),
     )
 for op, nm in ((0, "add_prod"), (1, "sub_prod"), (2, "add_one"), (3, "sub_one")):
-    reg("C04", H("c04_q32_step_" + nm, "c04::q32::step", gen=str(op), unwind=34, covers=2, timeout=900, mem_gb=10, tier="quick" if op in (1, 2) else "thorough",
+    reg("C04", H("c04_q32_step_" + nm, "c04::q32::step", gen=str(op), unwind=34, covers=2, timeout=1800, mem_gb=10, tier="quick" if op == 2 else "thorough",
                  funcs=["Q32E2 %s" % ["+= (P32E2,P32E2)", "-= (P32E2,P32E2)", "+= P32E2", "-= P32E2"][op]], space_bits=576,
                  bound="every 512-bit quire state, every operand (pair); result pattern != NaR"))
 
@@ -161,7 +161,7 @@ reg("C12",
     H("c12_q16_roundtrip", "c12::q16::roundtrip", unwind=130, funcs=["From<P16E1> for Q16E1", "Q16E1::from_posit", "Q16E1::to_posit", "From<Q16E1> for P16E1"], space_bits=16, bound="every P16E1"),
     H("c12_q16_state_ops", "c12::q16::state_ops", unwind=130, funcs=["Q16E1::neg", "Q16E1::clear", "Q16E1::from_bits", "Q16E1::to_bits"], space_bits=128, bound="every 128-bit state"),
     H("c12_q16_split", "c12::q16::split", unwind=130, timeout=900, funcs=["Q16E1::into_two_posits", "Q16E1::into_three_posits"], space_bits=128, bound="every non-NaR state whose residuals are not the NaR pattern"),
-    H("c12_q32_roundtrip", "c12::q32::roundtrip", unwind=66, timeout=600, mem_gb=10, funcs=["From<P32E2> for Q32E2", "Q32E2::from_posit", "Q32E2::to_posit", "From<Q32E2> for P32E2"], space_bits=32, bound="every P32E2"),
+    H("c12_q32_roundtrip", "c12::q32::roundtrip", unwind=66, timeout=3600, mem_gb=10, tier="thorough", funcs=["From<P32E2> for Q32E2", "Q32E2::from_posit", "Q32E2::to_posit", "From<Q32E2> for P32E2"], space_bits=32, bound="every P32E2"),
     H("c12_q32_state_ops", "c12::q32::state_ops", unwind=66, timeout=300, funcs=["Q32E2::neg", "Q32E2::clear", "Q32E2::from_bits", "Q32E2::to_bits"], space_bits=512, bound="every 512-bit state"),
     H("c12_q32_split2", "c12::q32::split2", unwind=66, timeout=2400, mem_gb=14, tier="thorough", funcs=["Q32E2::into_two_posits"], space_bits=512, bound="every non-NaR state whose residual is not the NaR pattern"),
     H("c12_q32_split3", "c12::q32::split3", unwind=66, timeout=3600, mem_gb=16, tier="thorough", funcs=["Q32E2::into_three_posits"], space_bits=512, bound="every non-NaR state whose residuals are not the NaR pattern"),
@@ -174,12 +174,12 @@ for t, T, n, uw in TYPES[:2]:
     for f in ("mul_add", "mul_sub", "sub_product"):
         reg("C05", H("c05_%s_%s" % (t, f), "c05::%s::%s" % (t, f), unwind=uw + 8, timeout=tmo, funcs=["%s::%s" % (T, f)], space_bits=3 * n, bound="every operand triple"))
 reg("C05",
-    H("c05_p32_special", "c05::p32::special", unwind=34, timeout=600, funcs=["P32E2::mul_add", "P32E2::mul_sub", "P32E2::sub_product"], space_bits=66, bound="every triple with a zero or NaR operand"),
+    H("c05_p32_special", "c05::p32::special", unwind=34, timeout=3600, tier="thorough", funcs=["P32E2::mul_add", "P32E2::mul_sub", "P32E2::sub_product"], space_bits=66, bound="every triple with a zero or NaR operand"),
     H("c05_p32_op_mapping", "c05::p32::op_mapping", unwind=34, timeout=2400, tier="thorough", funcs=["P32E2::mul_sub", "P32E2::sub_product", "P32E2::mul_add"], space_bits=96,
       bound="every triple: mul_sub(a,b,c) == mul_add(a,b,-c), sub_product(c,a,b) == mul_add(-a,b,c)"),
     )
 P32_FMA_D = [(-1000, -70), (-69, -40), (-39, -20), (-19, -8), (-7, -1), (0, 3), (4, 12), (13, 30), (31, 69), (70, 1000)]
-P32_FMA_QUICK = {(True, -1000, -70), (True, 70, 1000), (False, 70, 1000), (False, -1000, -70)}
+P32_FMA_QUICK = {(True, -1000, -70), (False, -1000, -70)}
 for same in (True, False):
     for lo, hi in P32_FMA_D:
         nm = "c05_p32_mul_add_%s_d%s_%s" % ("same" if same else "diff", str(lo).replace("-", "m"), str(hi).replace("-", "m"))
@@ -310,15 +310,15 @@ for es, P, PT in ((2, "pxe2", "PxE2"), (1, "pxe1", "PxE1")):
             H("c14_%s_from_p32_%d" % (P, N), "c14::%s::from_p32" % P, gen=str(N), unwind=34, timeout=300, tier=q, funcs=["%s<%d>::from_p32e2, From<P32E2>, P32E2::to_%s" % (PT, N, P)], space_bits=32, bound="every P32E2 pattern"),
             H("c14_%s_from_p16_%d" % (P, N), "c14::%s::from_p16" % P, gen=str(N), unwind=34, timeout=300, tier=q, funcs=["%s<%d>::from_p16e1, From<P16E1>" % (PT, N)], space_bits=16, bound="every P16E1 pattern"),
             H("c14_%s_from_p8_%d" % (P, N), "c14::%s::from_p8" % P, gen=str(N), unwind=34, timeout=300, tier=q, funcs=["%s<%d>::from_p8e0, From<P8E0>" % (PT, N)], space_bits=8, bound="every P8E0 pattern"),
-            H("c14_%s_from_f64_%d" % (P, N), "c14::%s::from_f64" % P, gen=str(N), unwind=48, timeout=2400, tier="quick" if N in (5, 16) else "thorough", funcs=["%s<%d>::from_f64, From<f64>" % (PT, N)], space_bits=62,
+            H("c14_%s_from_f64_%d" % (P, N), "c14::%s::from_f64" % P, gen=str(N), unwind=48, timeout=3600, tier="thorough", funcs=["%s<%d>::from_f64, From<f64>" % (PT, N)], space_bits=62,
               bound="every f64 with binary exponent in [-160,160], zeros, NaN, infinities (loop bound 48)"),
-            H("c14_%s_from_f32_%d" % (P, N), "c14::%s::from_f32" % P, gen=str(N), unwind=48, timeout=2400, tier="quick" if N in (8,) else "thorough", funcs=["%s<%d>::from_f32, From<f32>" % (PT, N)], space_bits=32,
+            H("c14_%s_from_f32_%d" % (P, N), "c14::%s::from_f32" % P, gen=str(N), unwind=48, timeout=3600, tier="thorough", funcs=["%s<%d>::from_f32, From<f32>" % (PT, N)], space_bits=32,
               bound="every normal f32, zeros, NaN, infinities"),
             )
         if P == "pxe2":
             reg("C14",
-                H("c14_pxe2_from_quire_%d" % N, "c14::pxe2::from_quire", gen=str(N), unwind=66, timeout=1800, mem_gb=10, tier="quick" if N in (8, 32) else "thorough", funcs=["From<Q32E2> for PxE2<%d>" % N], space_bits=512, bound="every 512-bit quire state"),
-                H("c14_pxe2_quire_roundtrip_%d" % N, "c14::pxe2::quire_roundtrip", gen=str(N), unwind=66, timeout=1800, mem_gb=10, tier="quick" if N in (8,) else "thorough", funcs=["From<PxE2<%d>> for Q32E2, From<Q32E2> for PxE2<%d>" % (N, N)], space_bits=N, bound="every %d-bit pattern" % N),
+                H("c14_pxe2_from_quire_%d" % N, "c14::pxe2::from_quire", gen=str(N), unwind=66, timeout=1800, mem_gb=10, tier="quick" if N in (8,) else "thorough", funcs=["From<Q32E2> for PxE2<%d>" % N], space_bits=512, bound="every 512-bit quire state"),
+                H("c14_pxe2_quire_roundtrip_%d" % N, "c14::pxe2::quire_roundtrip", gen=str(N), unwind=66, timeout=1800, mem_gb=10, tier="thorough", funcs=["From<PxE2<%d>> for Q32E2, From<Q32E2> for PxE2<%d>" % (N, N)], space_bits=N, bound="every %d-bit pattern" % N),
                 )
         for K, nm in ((0, "from_u64"), (1, "from_i64"), (2, "from_u32"), (3, "from_i32")):
             if P == "pxe1" and K in (1, 2):
